@@ -53,7 +53,7 @@ class WorldC01(World):
     PROBES = ('edit-imaginary-substitute', 'edit-wavenumbers', 'edit-spin', 'edit-qrrho-parameter', 'mode-shared-by-two-species',
               'swap-mode', 'imaginary-mode-present', 'monatomic-rotor', 'linear-rotor', 'trans-1-or-2-dof', 'point-group-label',
               'debye-mode', 'einstein-mode', 'qrrho-mode', 'low-T-regime', 'high-T-regime', 'verbose-sum', 'pressure-shift',
-              'textbook-harmonic', 'textbook-trans', 'textbook-rotor', 'textbook-elec', 'geometry-rigid-motion')
+              'textbook-harmonic', 'textbook-trans', 'textbook-rotor', 'textbook-elec', 'textbook-einstein', 'textbook-debye-Cv', 'textbook-qrrho', 'geometry-rigid-motion')
     REAL = ('pmutt.statmech.StatMech and every mode class (trans, vib, rot, elec, nucl)', 'pmutt._ModelBase.get_FoRT/get_GoRT',
             'pmutt.statmech.rot geometry helpers', 'ase molecule database (G2)')
     SIMULATED = ('1-3 clients editing public parameters of mode objects shared between species and evaluating them',)
@@ -403,6 +403,40 @@ class WorldC01(World):
             else:
                 q = math.sqrt(math.pi) / sig * math.sqrt(T ** 3 / np.prod(p['rot_temperatures']))
                 want = {'CvoR': 1.5, 'CpoR': 1.5, 'UoRT': 1.5, 'HoRT': 1.5, 'SoR': math.log(q) + 1.5, 'q': q}
+        elif k == 'EinsteinVib':
+            ctx.probe('textbook-einstein')
+            x = p['einstein_temperature'] / T
+            ex = math.exp(-x)
+            u0 = (p['interaction_energy'] + 1.5 * p['einstein_temperature'] * c.kb('eV/K')) / (c.kb('eV/K') * T)
+            want = {'CvoR': 3 * x * x * ex / (1 - ex) ** 2, 'UoRT': u0 + 3 * x * ex / (1 - ex),
+                    'SoR': 3 * (x * ex / (1 - ex) - math.log(1 - ex))}
+            want['CpoR'] = want['CvoR']
+            want['HoRT'] = want['UoRT']
+        elif k == 'DebyeVib':
+            ctx.probe('textbook-debye-Cv')
+            from scipy.integrate import quad
+            xd = p['debye_temperature'] / T
+            integ = quad(lambda y: y ** 4 * math.exp(-y) / (1 - math.exp(-y)) ** 2 if y > 0 else 0.0, 0, xd)[0]
+            want = {'CvoR': 9.0 / xd ** 3 * integ}      # U and S of this mode are the subject of known finding C01-debye-entropy
+            want['CpoR'] = want['CvoR']
+        elif k == 'QRRHOVib':
+            ctx.probe('textbook-qrrho')
+            sub = p['imaginary_substitute']
+            wn = [(w if w > 0 else sub) for w in p['vib_wavenumbers'] if w > 0 or sub is not None]
+            cv = u = sr = 0.0
+            for w in wn:
+                th = c.h('J s') * c.c('cm/s') * w / c.kb('J/K')
+                x = th / T
+                ex = math.exp(-x) if x < 700 else 0.0
+                om = 1.0 / (1.0 + (p['v0'] / w) ** p['alpha'])
+                mu = c.h('J s') / (8 * math.pi ** 2 * c.c('cm/s') * w)
+                mup = mu * p['Bav'] / (mu + p['Bav'])
+                cv += om * (x * x * ex / (1 - ex) ** 2) + 0.5 * (1 - om)
+                u += om * x * (0.5 + ex / (1 - ex)) + 0.5 * (1 - om)
+                s_h = x * ex / (1 - ex) - math.log(1 - ex)
+                s_r = 0.5 + math.log(math.sqrt(8 * math.pi ** 3 * mup * c.kb('J/K') * T / c.h('J s') ** 2))
+                sr += om * s_h + (1 - om) * s_r
+            want = {'CvoR': cv, 'CpoR': cv, 'UoRT': u, 'HoRT': u, 'SoR': sr}
         elif k == 'GroundStateElec':
             ctx.probe('textbook-elec')
             e = p['potentialenergy'] / (c.kb('eV/K') * T)
